@@ -520,8 +520,10 @@ func (w *world) observe() string {
 	names := w.srv.Svc.VerifC10Names()
 	ss := w.srv.Svc.VerifC10Sessions()
 	total := 0
+	quota := 0
 	for _, s := range ss {
 		total += len(s.Proxies)
+		quota += s.PortsUsed
 	}
 	sizes := []int{
 		len(tu), len(uu),
@@ -532,7 +534,7 @@ func (w *world) observe() string {
 		len(w.rc.VisitorManager.VerifC10Names()),
 		len(w.rc.NatHoleController.VerifClientNames()),
 		live(w.rc.TCPGroupCtl.VerifC13Table()), live(w.rc.HTTPGroupCtl.VerifC13Table()), live(w.rc.TCPMuxGroupCtl.VerifC13Table()),
-		len(names), len(ss), total,
+		len(names), len(ss), total, quota,
 	}
 	return fmt.Sprintf("{| ob_sizes := %s; ob_tcp := %s; ob_udp := %s; ob_names := %s; ob_tbusy := %s; ob_ubusy := %s |}",
 		zlist(sizes), zlist(tu), zlist(uu), slist(names), zlist(tb), zlist(ub))
